@@ -155,7 +155,11 @@ static int upipe_row_join_control(struct upipe *upipe, int command,
 
 static void upipe_row_join_free(struct upipe *upipe)
 {
+    struct upipe_row_join *ctx = upipe_row_join_from_upipe(upipe);
+
     upipe_throw_dead(upipe);
+
+    uref_free(ctx->output_uref);
     upipe_row_join_clean_ubuf_mgr(upipe);
     upipe_row_join_clean_urefcount(upipe);
     upipe_row_join_clean_output(upipe);
